@@ -1,2 +1,343 @@
-(* Proofs/NewickProofs.v *)
+(* Proofs/NewickProofs.v — C19: the explicit-stack traversal equals the classic
+   recursive pre-/post-order; each node once; ancestors before descendants. *)
 From Bio Require Import Base.
+From Bio.Model Require Import Newick.
+From Bio.Spec Require Import NewickSpec.
+Local Open Scope nat_scope.
+
+(* ---- induction on trees ------------------------------------------------ *)
+Lemma tree_ind' (P : tree -> Prop) :
+  (forall n d cs, Forall P cs -> P (Node n d cs)) -> forall t, P t.
+Proof.
+  intros H. fix IH 1. intros [n d cs]. apply H.
+  induction cs; constructor; [apply IH | assumption].
+Qed.
+
+(* ---- vocabulary --------------------------------------------------------- *)
+Definition order (pre : bool) : tree -> list occ := if pre then preorder else postorder.
+Definition under1 (i : nat) (x : occ) : occ := (i :: fst x, snd x).
+Definition pref (rp : path) (l : list occ) : list occ :=
+  map (fun x => (rev rp ++ fst x, snd x)) l.
+
+Definition kcost (steps : tree -> nat) (l : list tree) : nat :=
+  list_sum (map (fun c => S (steps c)) l).
+Fixpoint steps_of (t : tree) : nat :=
+  match t with Node _ _ cs => S (list_sum (map (fun c => S (steps_of c)) cs)) end.
+
+Lemma under_map i l : under i l = map (under1 i) l.
+Proof. reflexivity. Qed.
+
+Lemma kids_from_cons f i c r :
+  kids_from f i (c :: r) = under i (f c) ++ kids_from f (S i) r.
+Proof. reflexivity. Qed.
+
+Lemma order_node pre n d cs :
+  order pre (Node n d cs) =
+  (if pre then [([], Node n d cs)] else []) ++ kids_from (order pre) 0 cs
+  ++ (if pre then [] else [([], Node n d cs)]).
+Proof. destruct pre; simpl; [rewrite app_nil_r|]; reflexivity. Qed.
+
+Lemma pref_under rp i l : pref rp (under i l) = pref (i :: rp) l.
+Proof.
+  unfold pref, under. rewrite map_map. apply map_ext. intros [q n]. simpl.
+  rewrite <- app_assoc. reflexivity.
+Qed.
+
+Lemma pref_nil l : pref [] l = l.
+Proof.
+  unfold pref. rewrite <- (map_id l) at 2. apply map_ext. intros [q n]. reflexivity.
+Qed.
+
+Lemma pref_app rp a b : pref rp (a ++ b) = pref rp a ++ pref rp b.
+Proof. apply map_app. Qed.
+
+(* ---- the loop ----------------------------------------------------------- *)
+Definition tree_loop_ok (pre : bool) (c : tree) : Prop :=
+  forall p rest acc f,
+    traverse_loop pre (steps_of c + f) ((p, c, 0) :: rest) acc
+    = traverse_loop pre f rest (rev (pref p (order pre c)) ++ acc).
+
+Lemma loop_kids pre nm d cs p : forall l done i rest acc f,
+  cs = done ++ l -> i = length done -> Forall (tree_loop_ok pre) l ->
+  traverse_loop pre (kcost steps_of l + 1 + f) ((p, Node nm d cs, i) :: rest) acc
+  = traverse_loop pre f rest
+      ((if pre then [] else [(rev p, Node nm d cs)])
+       ++ rev (pref p (kids_from (order pre) i l))
+       ++ (if pre && Nat.eqb i 0 then (rev p, Node nm d cs) :: acc else acc)).
+Proof.
+  induction l as [|a l IH]; intros done i rest acc f Hcs Hi HF.
+  - rewrite app_nil_r in Hcs. subst done.
+    change (kcost steps_of [] + 1 + f) with (S f).
+    cbn [traverse_loop t_children]. rewrite <- Hi, Nat.eqb_refl.
+    destruct pre; reflexivity.
+  - inversion HF as [|? ? Ha HF']; subst.
+    replace (kcost steps_of (a :: l) + 1 + f)
+      with (S (steps_of a + (kcost steps_of l + 1 + f))) by (unfold kcost; simpl; lia).
+    cbn [traverse_loop t_children].
+    assert (E1 : Nat.eqb (length done) (length (done ++ a :: l)) = false).
+    { apply Nat.eqb_neq. rewrite app_length. simpl. lia. }
+    rewrite E1.
+    assert (E2 : nth_error (done ++ a :: l) (length done) = Some a).
+    { rewrite nth_error_app2 by lia. rewrite Nat.sub_diag. reflexivity. }
+    rewrite E2. rewrite Ha.
+    rewrite (IH (done ++ [a]) (S (length done))).
+    + rewrite kids_from_cons, pref_app, rev_app_distr, pref_under.
+      cbn [Nat.eqb andb]. rewrite Bool.andb_false_r. rewrite <- !app_assoc. reflexivity.
+    + rewrite <- app_assoc. reflexivity.
+    + rewrite app_length. simpl. lia.
+    + assumption.
+Qed.
+
+Lemma loop_tree pre : forall t, tree_loop_ok pre t.
+Proof.
+  induction t as [nm d cs HF] using tree_ind'. intros p rest acc f.
+  change (steps_of (Node nm d cs) + f) with (S (kcost steps_of cs + f)).
+  replace (S (kcost steps_of cs + f)) with (kcost steps_of cs + 1 + f) by lia.
+  rewrite (loop_kids pre nm d cs p cs [] 0 rest acc f eq_refl eq_refl HF).
+  rewrite order_node, !pref_app, !rev_app_distr.
+  destruct pre; cbn [andb Nat.eqb pref map rev app fst snd]; rewrite ?app_nil_r;
+    rewrite <- ?app_assoc; reflexivity.
+Qed.
+
+Lemma steps_size : forall t, steps_of t + 1 = 2 * size t.
+Proof.
+  induction t as [nm d cs HF] using tree_ind'. cbn [steps_of size].
+  assert (E : list_sum (map (fun c => S (steps_of c)) cs) = 2 * list_sum (map size cs)).
+  { induction HF as [|c l Hc _ IHl]; simpl; [reflexivity|]. simpl in IHl. lia. }
+  lia.
+Qed.
+
+Lemma traverse_order pre t : traverse pre t = Ok (order pre t).
+Proof.
+  unfold traverse.
+  replace (2 * size t + 2) with (steps_of t + 3) by (pose proof (steps_size t); lia).
+  rewrite (loop_tree pre t [] [] [] 3). cbn [traverse_loop].
+  rewrite app_nil_r, rev_involutive, pref_nil. reflexivity.
+Qed.
+
+Lemma traverse_preorder t : traverse true t = Ok (preorder t).
+Proof. exact (traverse_order true t). Qed.
+Lemma traverse_postorder t : traverse false t = Ok (postorder t).
+Proof. exact (traverse_order false t). Qed.
+
+(* ---- membership: exactly the nodes of the tree -------------------------- *)
+Lemma in_kids f : forall l i x,
+  In x (kids_from f i l) <->
+  exists k c y, nth_error l k = Some c /\ In y (f c) /\ x = under1 (i + k) y.
+Proof.
+  induction l as [|a l IH]; intros i x.
+  - simpl. split; [tauto|]. intros (k & c & y & H & _). destruct k; discriminate.
+  - rewrite kids_from_cons, in_app_iff, IH, under_map, in_map_iff. split.
+    + intros [(y & E & Hy) | (k & c & y & Hk & Hy & E)].
+      * exists 0, a, y. rewrite Nat.add_0_r. auto.
+      * exists (S k), c, y. rewrite Nat.add_succ_r. auto.
+    + intros (k & c & y & Hk & Hy & E). destruct k as [|k].
+      * left. simpl in Hk. inversion Hk; subst. exists y. rewrite Nat.add_0_r. auto.
+      * right. exists k, c, y. rewrite Nat.add_succ_r in E. auto.
+Qed.
+
+Lemma in_order pre : forall t p n, In (p, n) (order pre t) <-> subtree_at t p = Some n.
+Proof.
+  induction t as [nm d cs HF] using tree_ind'. intros p n.
+  rewrite Forall_forall in HF.
+  assert (Hroot : forall l : list occ, l = [([], Node nm d cs)] \/ l = [] -> In (p, n) l ->
+                  subtree_at (Node nm d cs) p = Some n).
+  { intros l [-> | ->] Hin; [|destruct Hin]. destruct Hin as [E|[]]. inversion E; reflexivity. }
+  rewrite order_node, !in_app_iff, in_kids. split.
+  - intros [H | [(k & c & [q m] & Hk & Hy & E) | H]].
+    + apply (Hroot (if pre then [([], Node nm d cs)] else [])); [destruct pre; auto | exact H].
+    + inversion E; subst. cbn [subtree_at t_children]. rewrite Hk.
+      apply (HF c (nth_error_In _ _ Hk)). exact Hy.
+    + apply (Hroot (if pre then [] else [([], Node nm d cs)])); [destruct pre; auto | exact H].
+  - destruct p as [|k q]; cbn [subtree_at t_children].
+    + intros E. inversion E; subst. destruct pre; [left | right; right]; left; reflexivity.
+    + destruct (nth_error cs k) as [c|] eqn:Hk; [|discriminate]. intros H.
+      right; left. exists k, c, (q, n). split; [exact Hk|]. split.
+      * apply (HF c (nth_error_In _ _ Hk)). exact H.
+      * reflexivity.
+Qed.
+
+(* ---- each node exactly once --------------------------------------------- *)
+Lemma NoDup_app' {A} (a b : list A) :
+  NoDup a -> NoDup b -> (forall x, In x a -> ~ In x b) -> NoDup (a ++ b).
+Proof.
+  induction a as [|x a IH]; intros Ha Hb Hd; [exact Hb|].
+  inversion Ha; subst. simpl. constructor.
+  - rewrite in_app_iff. intros [H|H]; [contradiction|]. exact (Hd x (or_introl eq_refl) H).
+  - apply IH; auto. intros y Hy. apply Hd. right; exact Hy.
+Qed.
+
+Lemma NoDup_map_cons (i : nat) (l : list path) : NoDup l -> NoDup (map (cons i) l).
+Proof.
+  induction 1 as [|x l Hx _ IH]; simpl; constructor; [|exact IH].
+  rewrite in_map_iff. intros (y & E & Hy). inversion E; subst. contradiction.
+Qed.
+
+Lemma map_fst_under i l : map fst (under i l) = map (cons i) (map fst l).
+Proof. unfold under. rewrite !map_map. reflexivity. Qed.
+
+Lemma nodup_kids f : forall l i,
+  Forall (fun c => NoDup (map fst (f c))) l -> NoDup (map fst (kids_from f i l)).
+Proof.
+  induction l as [|a l IH]; intros i HF; [constructor|].
+  inversion HF; subst. rewrite kids_from_cons, map_app, map_fst_under.
+  apply NoDup_app'.
+  - apply NoDup_map_cons. assumption.
+  - apply IH. assumption.
+  - intros x Hx Hy. rewrite in_map_iff in Hx, Hy.
+    destruct Hx as (q & <- & _). destruct Hy as (y & E & Hy).
+    apply in_kids in Hy. destruct Hy as (k & c & z & _ & _ & ->).
+    simpl in E. inversion E. lia.
+Qed.
+
+Lemma nodup_order pre : forall t, NoDup (map fst (order pre t)).
+Proof.
+  induction t as [nm d cs HF] using tree_ind'.
+  assert (Hk : NoDup (map fst (kids_from (order pre) 0 cs))) by (apply nodup_kids; exact HF).
+  assert (Hnil : ~ In [] (map fst (kids_from (order pre) 0 cs))).
+  { rewrite in_map_iff. intros (y & E & Hy). apply in_kids in Hy.
+    destruct Hy as (k & c & z & _ & _ & ->). discriminate. }
+  rewrite order_node. destruct pre; cbn [app].
+  - rewrite app_nil_r. cbn [map fst]. constructor; assumption.
+  - rewrite map_app. apply NoDup_app'; [assumption | repeat constructor; intros [] |].
+    intros x Hx [<-|[]]. contradiction.
+Qed.
+
+Lemma length_kids f : forall l i,
+  length (kids_from f i l) = list_sum (map (fun c => length (f c)) l).
+Proof.
+  induction l as [|a l IH]; intros i; [reflexivity|].
+  rewrite kids_from_cons, app_length, IH. unfold under. rewrite map_length. reflexivity.
+Qed.
+
+Lemma length_order pre : forall t, length (order pre t) = size t.
+Proof.
+  induction t as [nm d cs HF] using tree_ind'.
+  rewrite order_node, !app_length, length_kids. cbn [size].
+  assert (E : list_sum (map (fun c => length (order pre c)) cs) = list_sum (map size cs)).
+  { induction HF as [|c l Hc _ IHl]; simpl; [reflexivity|]. rewrite Hc, IHl. reflexivity. }
+  rewrite E. destruct pre; simpl; lia.
+Qed.
+
+(* ---- ancestors before descendants ---------------------------------------- *)
+Lemma before_app_l {A} (l m : list A) x y : before l x y -> before (l ++ m) x y.
+Proof.
+  intros (l1 & l2 & l3 & ->). exists l1, l2, (l3 ++ m).
+  repeat (rewrite <- app_assoc; simpl). reflexivity.
+Qed.
+
+Lemma before_app_r {A} (l m : list A) x y : before m x y -> before (l ++ m) x y.
+Proof.
+  intros (l1 & l2 & l3 & ->). exists (l ++ l1), l2, l3. rewrite <- app_assoc. reflexivity.
+Qed.
+
+Lemma before_app_lr {A} (l m : list A) x y : In x l -> In y m -> before (l ++ m) x y.
+Proof.
+  intros Hx Hy. apply in_split in Hx. apply in_split in Hy.
+  destruct Hx as (a & b & ->). destruct Hy as (c & e & ->).
+  exists a, (b ++ c), e. repeat (rewrite <- app_assoc; simpl). reflexivity.
+Qed.
+
+Lemma before_map {A B} (g : A -> B) l x y : before l x y -> before (map g l) (g x) (g y).
+Proof.
+  intros (l1 & l2 & l3 & ->). exists (map g l1), (map g l2), (map g l3).
+  rewrite !map_app. simpl. rewrite map_app. reflexivity.
+Qed.
+
+Lemma before_kids f : forall l i k c x y,
+  nth_error l k = Some c -> before (f c) x y ->
+  before (kids_from f i l) (under1 (i + k) x) (under1 (i + k) y).
+Proof.
+  induction l as [|a l IH]; intros i k c x y Hk Hb; [destruct k; discriminate|].
+  rewrite kids_from_cons. destruct k as [|k]; simpl in Hk.
+  - inversion Hk; subst. rewrite Nat.add_0_r. apply before_app_l.
+    rewrite under_map. apply before_map. exact Hb.
+  - apply before_app_r. rewrite Nat.add_succ_r. apply (IH (S i) k c); assumption.
+Qed.
+
+Lemma strict_prefix_nil_r p : ~ strict_prefix p [].
+Proof.
+  intros (r & Hr & E). destruct p; simpl in E; [|discriminate]. subst. contradiction.
+Qed.
+
+Lemma strict_prefix_cons i p j q : strict_prefix (i :: p) (j :: q) -> i = j /\ strict_prefix p q.
+Proof.
+  intros (r & Hr & E). simpl in E. inversion E; subst. split; [reflexivity|]. exists r. auto.
+Qed.
+
+(* an ancestor/descendant pair among the children's occurrences lies in one child *)
+Lemma kids_related f l i a d :
+  In a (kids_from f i l) -> In d (kids_from f i l) -> strict_prefix (fst a) (fst d) ->
+  exists k c a' d', nth_error l k = Some c /\ In a' (f c) /\ In d' (f c)
+    /\ a = under1 (i + k) a' /\ d = under1 (i + k) d' /\ strict_prefix (fst a') (fst d').
+Proof.
+  intros Ha Hd Hp. apply in_kids in Ha. apply in_kids in Hd.
+  destruct Ha as (k & c & a' & Hk & Ha & ->). destruct Hd as (k' & c' & d' & Hk' & Hd & ->).
+  simpl in Hp. apply strict_prefix_cons in Hp. destruct Hp as [E Hp].
+  assert (k' = k) by lia. subst k'. rewrite Hk in Hk'. inversion Hk'; subst c'.
+  exists k, c, a', d'. auto 10.
+Qed.
+
+Lemma pre_ancestor_first : forall t a d,
+  In a (preorder t) -> In d (preorder t) -> strict_prefix (fst a) (fst d) ->
+  before (preorder t) a d.
+Proof.
+  induction t as [nm d0 cs HF] using tree_ind'. intros a d Ha Hd Hp.
+  rewrite Forall_forall in HF.
+  change (preorder (Node nm d0 cs)) with (([], Node nm d0 cs) :: kids_from preorder 0 cs) in *.
+  destruct Ha as [<- | Ha].
+  - destruct Hd as [<- | Hd]; [exfalso; exact (strict_prefix_nil_r _ Hp)|].
+    apply (before_app_lr [([], Node nm d0 cs)]); [left; reflexivity | exact Hd].
+  - destruct Hd as [<- | Hd]; [exfalso; exact (strict_prefix_nil_r _ Hp)|].
+    destruct (kids_related _ _ _ _ _ Ha Hd Hp) as (k & c & a' & d' & Hk & Ha' & Hd' & -> & -> & Hp').
+    apply (before_app_r [([], Node nm d0 cs)]).
+    apply (before_kids preorder cs 0 k c); [exact Hk|].
+    apply (HF c (nth_error_In _ _ Hk)); assumption.
+Qed.
+
+Lemma post_descendant_first : forall t a d,
+  In a (postorder t) -> In d (postorder t) -> strict_prefix (fst a) (fst d) ->
+  before (postorder t) d a.
+Proof.
+  induction t as [nm d0 cs HF] using tree_ind'. intros a d Ha Hd Hp.
+  rewrite Forall_forall in HF.
+  change (postorder (Node nm d0 cs)) with (kids_from postorder 0 cs ++ [([], Node nm d0 cs)]) in *.
+  rewrite in_app_iff in Ha, Hd.
+  destruct Hd as [Hd | [<- | []]]; [|exfalso; exact (strict_prefix_nil_r _ Hp)].
+  destruct Ha as [Ha | [<- | []]].
+  - destruct (kids_related _ _ _ _ _ Ha Hd Hp) as (k & c & a' & d' & Hk & Ha' & Hd' & -> & -> & Hp').
+    apply before_app_l.
+    apply (before_kids postorder cs 0 k c); [exact Hk|].
+    apply (HF c (nth_error_In _ _ Hk)); assumption.
+  - apply before_app_lr; [exact Hd | left; reflexivity].
+Qed.
+
+(* children in slice order: the occurrences of child i precede those of child j > i *)
+Lemma kids_sibling_order f : forall l i k1 k2 c1 c2 x y,
+  k1 < k2 -> nth_error l k1 = Some c1 -> nth_error l k2 = Some c2 ->
+  In x (f c1) -> In y (f c2) ->
+  before (kids_from f i l) (under1 (i + k1) x) (under1 (i + k2) y).
+Proof.
+  induction l as [|a l IH]; intros i k1 k2 c1 c2 x y Hlt H1 H2 Hx Hy; [destruct k1; discriminate|].
+  rewrite kids_from_cons. destruct k2 as [|k2]; [lia|]. simpl in H2.
+  destruct k1 as [|k1]; simpl in H1.
+  - inversion H1; subst. apply before_app_lr.
+    + rewrite under_map, Nat.add_0_r. apply in_map. exact Hx.
+    + apply in_kids. exists k2, c2, y. rewrite Nat.add_succ_r. auto.
+  - apply before_app_r. rewrite !Nat.add_succ_r.
+    apply (IH (S i) k1 k2 c1 c2); auto; lia.
+Qed.
+
+(* ---- statements about what traverse returns ------------------------------- *)
+Lemma traverse_every_node pre t l : traverse pre t = Ok l ->
+  forall p n, In (p, n) l <-> subtree_at t p = Some n.
+Proof.
+  rewrite traverse_order. intros E. inversion E; subst. apply in_order.
+Qed.
+
+Lemma traverse_each_once pre t l : traverse pre t = Ok l ->
+  NoDup (map fst l) /\ length l = size t.
+Proof.
+  rewrite traverse_order. intros E. inversion E; subst.
+  split; [apply nodup_order | apply length_order].
+Qed.
